@@ -36,7 +36,7 @@ def jobs(tier):
         out.append(CH(name=f"c16_tricky_{w}", base="c16_tricky", func=f"{H}:c16_tricky", params=[("entry", "int")], pre=["0 <= entry <= 2"], fixed={"which": w}, timeout=300,
                       twin=False, functions=F + ["as_integer", "generate_jaqal_program"], note=f"unusual concrete text {TRICKY[w][:40]!r}...: result, JaqalError or ImportError only"))
     for sel in range(len(POOL)):
-        for order in (0, 1):
+        for order in ((0, 1) if (not q or sel < 3) else (0,)):
             out.append(CH(name=f"c16_history_{sel}_{order}", base="c16_history", func=f"{H}:c16_history", params=[("s", "str")], pre=[f"len(s) <= {n}"],
                           fixed={"sel": sel, "order": order}, timeout=900 if q else 3000, functions=F + ["_monkeypatch_sly"],
                           note="outcome (circuit repr or error message) of a text is the same before and after processing another, possibly failing, text"))
